@@ -155,6 +155,10 @@ impl AssemblyCode {
         }
     }
 
+    pub fn is_empty(&self) -> bool {
+        self.code.is_empty()
+    }
+
     pub fn size_bytes(&self) -> u32 {
         let mut size = 0;
         for c in self.code.iter() {
